@@ -63,6 +63,7 @@ class IniModel(object):
     def __init__(self, spec):
         self.sections = [[s["name"], [[norm_key(k), k, v] for k, v in s["entries"]]] for s in spec["sections"]]
         self.emptied = []
+        self.recreated = []      # sections emptied by removals and populated again by a later addition
 
     def _sec(self, name):
         for s in self.sections:
@@ -100,6 +101,8 @@ class IniModel(object):
             self.sections.append(s)
         if section in self.emptied:
             self.emptied.remove(section)
+            if section not in self.recreated:
+                self.recreated.append(section)
         s[1].append([norm_key(key), key, value])
 
     def items(self):
@@ -110,8 +113,15 @@ class IniModel(object):
         return out
 
     def render(self, keep_empty_headers=True):
+        """keep_empty_headers=True: a section whose last key was removed keeps its header where it was.
+        False: its header is deleted too; if keys are added to it later it is a new section at the end."""
         spec = {"sections": []}
-        for name, ents in self.sections:
+        order = list(self.sections)
+        if not keep_empty_headers:
+            moved = [s for s in order if s[0] in self.recreated]
+            moved.sort(key=lambda s: self.recreated.index(s[0]))
+            order = [s for s in order if s[0] not in self.recreated] + moved
+        for name, ents in order:
             if not ents and not keep_empty_headers and name in self.emptied:
                 continue
             # outer whitespace of a key is not part of a hand edit (leading blanks would turn the line
@@ -464,7 +474,7 @@ def execute(sc, reference=False):
             out["emptied"] = list(m.emptied)
             out["renditions"] = []
             texts = [m.render(True)]
-            if m.emptied:
+            if m.emptied or m.recreated:
                 texts.append(m.render(False))
             out["texts"] = texts
             out["parses"] = []
